@@ -2,6 +2,7 @@
 import os
 
 import st_cluster
+import st_fixtures
 import st_clustermodel
 
 LEVEL = "model_checking"
@@ -20,3 +21,5 @@ def run(ctx):
     if os.path.exists(os.path.join(os.path.dirname(__file__), "st_nodeacct.READY")):
         import st_nodeacct
         st_nodeacct.run_stage(ctx, ["C02_"])
+    if not ctx.quick:
+        st_fixtures.run_stage(ctx, PREFIXES)
